@@ -211,6 +211,22 @@ CLAIMED = {
         "(it is defined through them). Exhaustive over the listed grid; one lattice data set per (p, values).",
         "TLA+ grid model checked with TLC + exhaustive replay against the canonical representation",
     ),
+    "C18": (
+        "7/C18",
+        "Generators.tla",
+        "TLC checks the model of the generators (validation chain, then the in-place affine transform applied "
+        "segment by segment / anomaly by anomaly with Python slice semantics, so a negative position that "
+        "slipped through would wrap around in the model as in the code) against the decision function "
+        "MustRaise and the row map defined by the segment / covering anomalies, for every argument set within "
+        "the constants; every case is replayed (ValueError iff inconsistent; out = a + b*z with z the "
+        "generator's own standard-normal output for the same seed; determinism, seed sensitivity, shape, index, "
+        "columns; array and scalar parameters); alternating data over a grid; outlier rows for all 1<=k<=n<=40 "
+        "are validated by TLC against OutlierAdmits (evenly spaced first to last, integer truncation).",
+        "Exhaustive for n<=4..6, up to 2..3 positions in -1..n+1, p<=3; changepoints equal to 0, duplicated "
+        "or unsorted and n_outliers>n are not judged (the statement does not define them); an exact integer "
+        "outlier position may truncate to one less (float representation) -- admitted.",
+        "TLA+ model checked with TLC + exhaustive replay + TLC-validated outlier rows",
+    ),
 }
 
 NOT_YET = {}
